@@ -98,6 +98,10 @@ fn gen_typed(rng: &mut Rng, ty: &str, floats: bool) -> Value {
     }
 }
 
+fn wire_log_dir() -> std::path::PathBuf {
+    std::path::PathBuf::from("/verif/.build/run").join(format!("c03-wirelog-{}", std::process::id()))
+}
+
 struct Names {
     table: Vec<String>,
 }
@@ -175,6 +179,30 @@ fn wire_cases(rep: &mut Report, model: &mut Model, rng: &mut Rng, n: u64) {
                         }
                         if ev2.stream_kind() != ev.stream_kind() || ev2.stream_id() != ev.stream_id() {
                             rep.oracle_failure("C03|stream-changed", "a frame is assigned to a different stream when read back", case.clone());
+                        }
+                    }
+                }
+                // oracle: a frame whose append has returned is on disk - a replay by anybody else (a second
+                // handle, the next authority) reproduces it; whatever its kind, it does not wait in the
+                // writer's buffer for some later frame
+                {
+                    static WIRE_LOG: std::sync::OnceLock<(rip_log::EventLog, std::path::PathBuf)> = std::sync::OnceLock::new();
+                    let (log, path) = WIRE_LOG.get_or_init(|| {
+                        let dir = wire_log_dir();
+                        let _ = std::fs::remove_dir_all(&dir);
+                        std::fs::create_dir_all(&dir).unwrap();
+                        let path = dir.join("events.jsonl");
+                        (rip_log::EventLog::new(&path).expect("wire log"), path)
+                    });
+                    let before = std::fs::metadata(path).map(|m| m.len()).unwrap_or(0);
+                    if log.append(ev).is_ok() {
+                        let after = std::fs::metadata(path).map(|m| m.len()).unwrap_or(0);
+                        rep.count("appended_then_looked_for_on_disk");
+                        if after != before + text.len() as u64 + 1 {
+                            rep.oracle_failure("C03|appended-frame-not-on-disk", &format!("{}: append returned, the frame has {} bytes, the log file grew by {}", v["ident"], text.len() + 1, after - before), case.clone());
+                        }
+                        if after > 64 * 1024 * 1024 {
+                            let _ = std::fs::write(path, b"");
                         }
                     }
                 }
@@ -374,5 +402,6 @@ pub fn run(opts: &Opts) -> Report {
     wire_cases(&mut rep, &mut model, &mut rng, if opts.thorough { 40_000 } else { 4_000 } * opts.scale);
     view_cases(&mut rep, &mut rng, if opts.thorough { 300 } else { 40 } * opts.scale);
     session_task_view_cases(&mut rep, &mut rng, if opts.thorough { 200 } else { 24 } * opts.scale);
+    let _ = std::fs::remove_dir_all(wire_log_dir());
     rep
 }
